@@ -276,8 +276,9 @@ func parseStackPCs(crash string) ([]uintptr, error) {
 			// different mappings of the text section.
 			pc, err := getPC(line)
 			if err != nil {
-				if strings.Contains(line, " pc=") {
-					// Not an inlined frame (those have no pc= field):
+				if strings.Contains(line, " pc=") && strings.Contains(line, " sp=") && strings.Contains(line, " fp=") {
+					// Not an inlined frame (those have no sp=, fp= and pc=
+					// fields; " pc=" alone may be part of the file name):
 					// dropping the frame would silently change the name.
 					return nil, fmt.Errorf("error extracting pc: %v", err)
 				}
